@@ -659,9 +659,15 @@ struct WCtx {
     panics: u64,
     adapters: bool,
     probes: std::collections::BTreeMap<&'static str, u64>,
+    /// context for later reports: an interrupted put and what the adapters accounted for it
+    note: Option<String>,
 }
 impl WCtx {
     fn v(&mut self, props: &[&'static str], kind: &str, detail: String) {
+        let detail = match &self.note {
+            Some(n) => format!("{} [{}]", detail, n),
+            None => detail,
+        };
         self.viol.push(Violation { props: props.to_vec(), kind: kind.to_string(), detail, step: self.step });
     }
     fn law(&mut self, kind: &str, detail: String) {
@@ -770,6 +776,10 @@ fn do_wop<B: BufMut>(cx: &mut WCtx, b: &mut B, tm: &mut Tm, written: &mut Vec<u8
                     return WFlow::End;
                 }
                 let p = rem - rem1;
+                cx.note = Some(format!(
+                    "earlier, at step {}, {}: a put of a {}-byte source panicked part-way; by the room that was left the adapters had accepted {} bytes, which is what the contents are compared with",
+                    cx.step, what, data.len(), p
+                ));
                 written.extend_from_slice(&data[..p]);
                 tm.write(p);
                 cx.hit("faulty_source_panicked");
@@ -972,7 +982,7 @@ pub fn run(plan: &J, given: Option<&[J]>, rng: &mut Rng, max_ops: usize, journal
     let mut frames = Frames { frames: Vec::new(), caps: Vec::new() };
     collect_frames(plan, &mut frames);
     let mut tm = Tm::from_plan(plan);
-    let mut cx = WCtx { viol: Vec::new(), step: 0, room_before_panic: None, panics: 0, adapters: has_wadapter(plan), probes: Default::default() };
+    let mut cx = WCtx { viol: Vec::new(), step: 0, room_before_panic: None, panics: 0, adapters: has_wadapter(plan), probes: Default::default(), note: None };
     let mut written: Vec<u8> = Vec::new();
     let mut puts: Vec<(String, u128, usize, usize)> = Vec::new();
     let mut ops_done: Vec<J> = Vec::new();
